@@ -49,6 +49,13 @@ class Num (F : Type) where
   ofText : String → Option F
   /-- `_str` of a number (integers without `.0`, otherwise `str(float)`) -/
   display : F → String
+  /-- the exact decimal `m · 10^e` of the shortest text that reads back as the (finite) number -/
+  toDec : F → Int × Int
+  /-- the number nearest to `m · 10^e` -/
+  ofDec : Int → Int → F
+  /-- transcendental kernels by name (`SQRT`, `EXP`, `LN`, `SIN`, …): external (libm / numpy) -/
+  kernel1 : String → F → F
+  kernel2 : String → F → F → F
 
 /-- order laws that finite IEEE doubles satisfy (hypotheses of the comparison theorems) -/
 class LawfulNum (F : Type) [Num F] : Prop where
